@@ -58,8 +58,8 @@ theorem stored_verified_and_extends (cfg : Cfg) (s : Impl) (e : Ev) (n h : Nat)
             · cases hr : s.node.reorg <;> simp [reorgObs, hr] at e
             · cases e
           exact ⟨req, b, rfl, hok, this.1, this.2, h1, h2, by simp [Impl.step, ht, hok, hsucc, onStored]⟩
-  | reorgDetected next latest =>
-    rw [(step_reorgDetected cfg s next latest).1] at hs; cases hs
+  | reorgDetected next latest confirm =>
+    rw [(step_reorgDetected cfg s next latest confirm).1] at hs; cases hs
   | iter ans revOk =>
     cases ht : s.task with
     | none => simp [Impl.step, ht] at hs
@@ -130,8 +130,8 @@ theorem head_moves_back_only_by_revert (cfg : Cfg) (s : Impl) (e : Ev) :
         | badNumber => left; simp [Impl.step, ht, hok, hsucc]
         | parentMismatch => left; simp [Impl.step, ht, hok, hsucc]
         | stored => right; left; exact ⟨b, by simp [Impl.step, ht, hok, hsucc, onStored]⟩
-  | reorgDetected next latest =>
-    left; rw [(step_reorgDetected cfg s next latest).2]
+  | reorgDetected next latest confirm =>
+    left; rw [(step_reorgDetected cfg s next latest confirm).2]
   | iter ans revOk =>
     cases ht : s.task with
     | none => left; simp [Impl.step, ht]
@@ -355,17 +355,17 @@ reverted and ends at the first one (`expectedNotifs`, `rangeNH`). -/
 theorem notifications_exact (cfg : Cfg) (c : Chain) (es : List Ev) (hl : Linked c)
     (hb : ∀ x ∈ c, x.num < U64) (hok : (Impl.init c).runOK cfg es) :
     notifsOf ((Impl.init c).trace cfg es) = expectedNotifs [] ((Impl.init c).trace cfg es) := by
-  obtain ⟨sp, hr, _, ho⟩ := run_accepted cfg false (fun h => by cases h) c es hl hb hok
-  have := Spec.notifs_balance false _ _ _ hr
+  obtain ⟨sp, hr, _, ho, _⟩ := run_accepted_general cfg .lenient (ModeOK.lenient cfg) c es hl hb hok
+  have := Spec.notifs_balance .lenient _ _ _ hr
   simpa [Spec.init, ho] using this.symm
 
 /-- The same for any trace the acceptor accepts with nothing owed before or after (this is what
 the harness establishes for each observed run of the real Synchronizer). -/
-theorem accepted_notifications_exact (strict : Bool) (s s' : Spec) (tr : List SEv)
-    (hr : Spec.run strict s tr = .ok s')
+theorem accepted_notifications_exact (m : Mode) (s s' : Spec) (tr : List SEv)
+    (hr : Spec.run m s tr = .ok s')
     (h0 : s.owed = []) (h1 : s'.owed = []) :
     notifsOf tr = expectedNotifs (s.pending.map (fun b => (b.num, b.hash))) tr := by
-  have := Spec.notifs_balance strict _ _ _ hr
+  have := Spec.notifs_balance m _ _ _ hr
   simpa [h0, h1] using this.symm
 
 /-- When `RevertHead` fails the code still extends `currReorg`: the next reorg notification then
@@ -374,7 +374,7 @@ theorem failed_revert_makes_reorg_range_wrong :
     let g : Blk := ⟨0, 1, 0, true⟩
     let x1 : Blk := ⟨1, 2, 1, true⟩
     let y2 : Blk := ⟨2, 30, 2, true⟩
-    let es : List Ev := [.reorgDetected 2 (some ⟨0, 77⟩), .iter (some ⟨1, 55, 1, true⟩) false,
+    let es : List Ev := [.reorgDetected 2 (some ⟨0, 77⟩) none, .iter (some ⟨1, 55, 1, true⟩) false,
       .deliver 2 y2 false]
     (Impl.run Cfg.original (Impl.init [x1, g]) es).2 =
       [Obs.revertFailed 1 2, Obs.stored 2 30, Obs.reorg ⟨1, 2, 1, 2⟩, Obs.newHead 2 30] := by
@@ -537,26 +537,26 @@ example :
 
 -- a `Setting`, and a fair run with ENOUGH cycles (k = 5 = |src| + |node| + 1) and junk in between
 example :
-    let g : Blk := ⟨0, 1, 0, true⟩
-    let x1 : Blk := ⟨1, 2, 1, true⟩
-    let y1 : Blk := ⟨1, 12, 1, true⟩
-    Setting [x1, y1, g] [y1, g] ∧
-    ∃ es, FairRun Cfg.asFound [y1, g] (Impl.init [x1, g]) 5 es := by
+    Setting [⟨1, 2, 1, true⟩, ⟨1, 12, 1, true⟩, ⟨0, 1, 0, true⟩] [⟨1, 12, 1, true⟩, ⟨0, 1, 0, true⟩] ∧
+    ∃ es, FairRun Cfg.asFound [⟨1, 12, 1, true⟩, ⟨0, 1, 0, true⟩]
+      (Impl.init [⟨1, 2, 1, true⟩, ⟨0, 1, 0, true⟩]) 5 es := by
   refine ⟨⟨?_, ⟨rfl, rfl, rfl, rfl⟩, by decide, by decide, by decide, by decide⟩, ?_⟩
   · intro x hx y hy h
     simp only [List.mem_cons, List.mem_nil_iff, or_false] at hx hy
     rcases hx with rfl | rfl | rfl <;> rcases hy with rfl | rfl | rfl <;> first | rfl | (simp at h)
-  · -- junk, then five rounds (existence of the rest: every state without a task admits a round)
-    have rounds : ∀ (k : Nat) (s : Impl), s.task = none → ∃ es, FairRun Cfg.asFound [y1, g] s k es := by
+  · -- junk, then five rounds (every state without a task admits a round)
+    have rounds : ∀ (k : Nat) (s : Impl), s.task = none →
+        ∃ es, FairRun Cfg.asFound [⟨1, 12, 1, true⟩, ⟨0, 1, 0, true⟩] s k es := by
       intro k
       induction k with
       | zero => intro s _; exact ⟨[], FairRun.done s⟩
       | succ k ih =>
         intro s ht
-        obtain ⟨_, _, ht'⟩ := roundEvents_spec Cfg.asFound [y1, g] s ht
+        obtain ⟨_, _, ht'⟩ := roundEvents_spec Cfg.asFound [⟨1, 12, 1, true⟩, ⟨0, 1, 0, true⟩] s ht
         obtain ⟨es, hes⟩ := ih _ ht'
         exact ⟨_, FairRun.round s es k ht hes⟩
-    obtain ⟨es, hes⟩ := rounds 5 ((Impl.init [x1, g]).step Cfg.asFound (.deliver 7 ⟨0, 1, 0, false⟩ true)).1 rfl
+    obtain ⟨es, hes⟩ := rounds 5
+      ((Impl.init [⟨1, 2, 1, true⟩, ⟨0, 1, 0, true⟩]).step Cfg.asFound (.deliver 7 ⟨0, 1, 0, false⟩ true)).1 rfl
     exact ⟨_, FairRun.noop _ (.deliver 7 ⟨0, 1, 0, false⟩ true) es 5 rfl (Or.inl rfl) hes⟩
 
 end Juno.C06.Props
